@@ -98,6 +98,7 @@ func checkC08(t TB, c C08Case) bool {
 	if merr != nil {
 		failf(t, P, K, c, "%v", merr)
 	}
+	colourVariant(t, P, K, c, EncSpec{Fam: c.Kind, Content: c.Content}, [][]bool{m})
 	var got string
 	var derr error
 	switch c.Kind {
